@@ -357,7 +357,12 @@ func check(id, tier string) int {
 					}
 				}
 				for _, v := range rep.Violations {
-					viols = append(viols, viol{v.Kind, v.Msg, v.Witness, j.part.Flavor, j.part.Mode, j.part.KnownFindingOnly})
+					kind := v.Kind
+					if j.part.KnownFindingOnly && !strings.HasPrefix(kind, j.part.Mode+":") {
+						// everything a known-finding reproducer reports belongs to that regime, whatever the symptom
+						kind = j.part.Mode + ":" + kind
+					}
+					viols = append(viols, viol{kind, v.Msg, v.Witness, j.part.Flavor, j.part.Mode, j.part.KnownFindingOnly})
 				}
 			}
 			// race reports
